@@ -99,11 +99,15 @@ def gen_knobs(rng, prop, profile):
     sizes = sorted(res_sizes[k["res"]] + (4 if k["pp"] else 0) for k in keys)
     total = sum(sizes)
     cls = wchoice(rng, [(12, "tiny"), (30, "few"), (33, "half"), (25, "all")])
+    if wide and rng.random() < 0.7:
+        cls = "most"  # the whole alphabet does not quite fit, although any 50 uris do
     if cls == "tiny":
         max_bytes = max(1, sizes[0] - 1) if sizes[0] > 1 else 1
     elif cls == "few":
         n = rng.randint(1, 2)
         max_bytes = sum(sizes[-n:]) + rng.randint(0, 50)
+    elif cls == "most":
+        max_bytes = max(1, int(total * rng.uniform(0.86, 0.99)))
     elif cls == "half":
         max_bytes = max(1, int(total * rng.uniform(0.3, 0.7)))
     else:
